@@ -535,7 +535,10 @@ func (w *vWorld) execCertPolicy(c map[string]interface{}) (map[string]interface{
 				cl.Expiration = authAt + maxAgeSecondsAuthCookie
 				q.Cookies = map[string]string{authCookieName: w.signOurs(cl)}
 			}
-		case "cookie_cli_week":
+		case "cookie_cli_week", "cookie_cli_week_slowbody":
+			if cred == "cookie_cli_week_slowbody" {
+				q.BodyDelay = 4500 * time.Millisecond
+			}
 			cl := w.goodClaims(norm, AuthTypeWebauthForCLI)
 			cl.NotBefore, cl.IssuedAt = authAt, authAt
 			cl.Expiration = authAt + 7*24*3600
